@@ -148,6 +148,9 @@ def oracle_c07(x, w):
         return [(f'wait_never_returned_{x.aborted}' if pend else f'execution_{x.aborted}',
                  f'waits {r["waits"]}; calls {[(c["start"], c["args"], c["ok"]) for c in r["calls"]]}')]
     if r['errors']:
+        if any('CancelledError' in e for _, e in r['errors']) and any(wt['ret_t'] is None for wt in r['waits']):
+            return [('wait_never_returned', f'wait_from_anywhere() only ended (cancelled) when the buffer loop shut '
+                                            f'down: {r["errors"]}; waits {r["waits"]}')]
         return [('thread_raised', repr(r['errors']))]
     for wt in r['waits']:
         if wt['ret_t'] is None:
